@@ -59,7 +59,11 @@ func check(c Case) error {
 	// every record alone
 	alone := make([]poly.Sequence, len(c.Records))
 	for i, r := range c.Records {
-		got, err := parse(fmt.Sprintf("Parse(record %d)", i), func() []poly.Sequence { return []poly.Sequence{genbank.Parse([]byte(each[i]))} })
+		got, err := parse(fmt.Sprintf("Parse(record %d)", i), func() []poly.Sequence {
+			buf := []byte(each[i]) // a buffer of the parser's own, overwritten once it has returned
+			defer vk.Scribble(buf)
+			return []poly.Sequence{genbank.Parse(buf)}
+		})
 		if err != nil {
 			return fmt.Errorf("%v\n--- record text ---\n%s", err, clip(each[i]))
 		}
@@ -74,9 +78,17 @@ func check(c Case) error {
 	name := "ParseMulti"
 	if c.FlatHeader {
 		name = "ParseFlat"
-		multi, err = parse(name, func() []poly.Sequence { return genbank.ParseFlat([]byte(whole)) })
+		multi, err = parse(name, func() []poly.Sequence {
+			buf := []byte(whole)
+			defer vk.Scribble(buf)
+			return genbank.ParseFlat(buf)
+		})
 	} else {
-		multi, err = parse(name, func() []poly.Sequence { return genbank.ParseMulti([]byte(whole)) })
+		multi, err = parse(name, func() []poly.Sequence {
+			buf := []byte(whole)
+			defer vk.Scribble(buf)
+			return genbank.ParseMulti(buf)
+		})
 	}
 	if err != nil {
 		return err
